@@ -32,7 +32,9 @@ TRUSTED = ["oracle restricted (soundness): 'owned' names exclude zones holding w
            "for those only the provenance of every RR at an owned name is checked; clause (ii) excludes names beneath an NS "
            "cut of the non-authoritative zone and names that also carry a CNAME"]
 
-generate = g.generate
+
+def generate(rng, tier):
+    return g.generate(rng, tier, ID)
 
 
 def rr_of(name, rec):
